@@ -381,7 +381,7 @@ pub fn expected_mindex(conts: &[MCont], chunks: &[(usize, usize, &[RecSpec])]) -
                 None => (None, 0),
                 Some(_) => {
                     let lo = recs.iter().filter(|r| r.rid == rid).map(|r| r.start).min().unwrap();
-                    let hi = recs.iter().filter(|r| r.rid == rid).map(|r| r.end).max().unwrap();
+                    let hi = recs.iter().filter(|r| r.rid == rid).map(idx_end).max().unwrap();
                     (Some(lo), hi - lo + 1)
                 }
             };
@@ -439,9 +439,10 @@ pub fn run_midx(c: &Case) -> Obs {
                         None
                     }
                 });
+                let class = chunks.iter().any(|&(_, _, r)| span_class_slice(r));
                 Obs::fail(
                     obs,
-                    &format!("crai-multislice-entry-wrong-{}", field.unwrap_or("count")),
+                    &if class && field == Some("reference-or-span") { SPAN_CLASS_TAG.to_string() } else { format!("crai-multislice-entry-wrong-{}", field.unwrap_or("count")) },
                     format!("got {} want {}", fmt_entries(&got), fmt_entries(&expected)),
                 )
             }
@@ -450,7 +451,10 @@ pub fn run_midx(c: &Case) -> Obs {
             let obs = format!("I=Err:{k}");
             if lmmode == 1 && multi && k == "InvalidData" { Obs::ok(obs, true) } else { Obs::fail(obs, "cram-index-error", k) }
         }
-        IndexResult::Panic(m) => Obs::fail("I=Panic", "cram-index-panic", m),
+        IndexResult::Panic(m) => {
+            let class = chunks.iter().any(|&(_, _, r)| span_class_slice(r));
+            Obs::fail("I=Panic", if class { SPAN_CLASS_TAG } else { "cram-index-panic" }, m)
+        }
     }
 }
 
@@ -548,7 +552,7 @@ pub fn judge_queries(
         let rl = lo.unwrap_or(1);
         let rh = hi.unwrap_or(u64::MAX);
         let want: Vec<usize> = if r < nrefs {
-            (0..n).filter(|&i| { let x = &b.spec.recs[i]; x.rid == Some(r) && x.start <= rh && rl <= x.end }).collect()
+            (0..n).filter(|&i| { let x = &b.spec.recs[i]; x.rid == Some(r) && x.start <= rh && rl <= hit_end(x) }).collect()
         } else {
             vec![]
         };
@@ -1083,6 +1087,13 @@ pub fn generate_multi(rng: &mut Rng, thorough: bool, w: &mut CaseWriter) {
             a.push(gen_regions(rng, &spec, 6));
             w.push("via", a);
         }
+    }
+    // placed records without bases in (merged) multi-slice files: index only
+    for i in 0..(if thorough { 1500 } else { 100 }) {
+        let spec = gen_spec_nobases(rng, i);
+        let Some((mut a, _)) = mbase(rng, &spec, true) else { continue };
+        a.push("0".to_string());
+        w.push("midx", a);
     }
     // index from the bytes
     let nfiles = if thorough { 1500 } else { 150 };
